@@ -320,6 +320,11 @@ def address_s(draw):
     if k == 3:
         groups[:5] = [0, 0, 0, 0, 0]
         groups[5] = draw(st.sampled_from([0, 0xffff]))
+    elif k == 4:
+        # longest possible texts: every group with four hex digits (39 characters), or all but one
+        groups = [draw(st.integers(0x1000, 0xffff)) for _ in range(8)]
+        if draw(st.booleans()):
+            groups[draw(st.integers(0, 7))] = draw(st.sampled_from([0, 1, 0xfff]))
     return addr_text(groups)[0]
 
 
